@@ -5,7 +5,9 @@ import (
 	"math"
 	"reflect"
 	"strconv"
+	"strings"
 	"testing"
+	"unsafe"
 
 	"github.com/ChrisTrenkamp/xsel"
 	"github.com/ChrisTrenkamp/xsel/store"
@@ -37,7 +39,33 @@ type c19Case struct {
 	Target      *tdesc         `json:"target"`                // type pointed to by the value passed (struct, slice or pointer chain)
 	Prepopulate bool           `json:"prepopulate,omitempty"` // tagged slice fields of the top struct hold two elements before the call
 	Prefill     bool           `json:"prefill,omitempty"`     // tagged pointer fields of the top struct point to caller-owned values before the call
+	Bind        int            `json:"bind,omitempty"`        // how many of c19Bindings are passed to Unmarshal (0: none)
 }
+
+// c19Bindings: the settings passed to Unmarshal (and to the Exec calls that
+// define the expected field values): a namespace, two variables, a user
+// function, a namespaced one, and one that shadows a builtin.
+func c19Bindings(n int) []xsel.ContextApply {
+	all := []xsel.ContextApply{
+		xsel.WithVariable("n", xsel.Number(3)),
+		xsel.WithFunction("probe", func(xsel.Context, ...xsel.Result) (xsel.Result, error) { return xsel.String("called"), nil }),
+		xsel.WithNS("u", "urn:fn"),
+		xsel.WithFunctionNS("urn:fn", "up", func(_ xsel.Context, a ...xsel.Result) (xsel.Result, error) {
+			if len(a) == 0 {
+				return xsel.String("UP"), nil
+			}
+			return xsel.String(strings.ToUpper(a[0].String())), nil
+		}),
+		xsel.WithVariable("s", xsel.String("sv")),
+		xsel.WithFunction("concat", func(xsel.Context, ...xsel.Result) (xsel.Result, error) { return xsel.String("shadowed"), nil }),
+	}
+	if n > len(all) {
+		n = len(all)
+	}
+	return all[:n]
+}
+
+var c19BindN int // the bindings of the case being checked (single-threaded)
 
 var c19Fill = reg("C19", "c19-fill", checkC19)
 var c19Bad = reg("C19", "c19-unsupported", checkC19Bad)
@@ -132,7 +160,7 @@ func expected(d *tdesc, node store.Cursor, init reflect.Value) (reflect.Value, e
 		if err != nil {
 			return out, errExpectErr
 		}
-		res, err := safeExec(node, g)
+		res, err := safeExec(node, g, c19Bindings(c19BindN)...)
 		if err != nil {
 			return out, errExpectErr
 		}
@@ -250,13 +278,13 @@ func deepEq(a, b reflect.Value, path string) error {
 	return nil
 }
 
-func safeUnmarshal(res xsel.Result, v any) (err error) {
+func safeUnmarshal(res xsel.Result, v any, set ...xsel.ContextApply) (err error) {
 	defer func() {
 		if r := recover(); r != nil {
 			err = &panicError{r}
 		}
 	}()
-	return xsel.Unmarshal(res, v)
+	return xsel.Unmarshal(res, v, set...)
 }
 
 func checkC19(c *c19Case) error {
@@ -274,6 +302,7 @@ func checkC19(c *c19Case) error {
 		return fmt.Errorf("bad case: select failed: %v", err)
 	}
 	ns, _ := res.(xsel.NodeSet)
+	c19BindN = c.Bind
 	base, nptr := c.Target.strip()
 	t := base.typ()
 	// the target: a pointer chain of depth nptr+1 to a value with sentinels in untagged fields
@@ -333,7 +362,7 @@ func checkC19(c *c19Case) error {
 			}
 		}
 	}
-	gotErr := safeUnmarshal(res, arg.Interface())
+	gotErr := safeUnmarshal(res, arg.Interface(), c19Bindings(c.Bind)...)
 	st.Eval(1)
 	if pe, ok := gotErr.(*panicError); ok {
 		return fmt.Errorf("Unmarshal into %v panicked: %v", arg.Type(), pe.v)
@@ -369,7 +398,9 @@ func checkC19(c *c19Case) error {
 var intTags = []string{"count(*)", "count(node())", "string-length()", "7", "2.7", "count(@*)", "position()", "@n", "a[1]", "string-length(name())", "last()", "position() + last()",
 	"200", "40000", "3000000000", "10000000000000000000", "18446744073709549568", "127", "255", "65535", "2147483647", "9007199254740993"}
 var signedTags = []string{"-3", "0 - count(*)", "-2.7"}
-var strTags = []string{"name()", ".", "@id", "normalize-space()", "concat(name(), '-', @id)", "a", "'lit'", "string(*[1])", "..", "text()"}
+var strTags = []string{"name()", ".", "@id", "normalize-space()", "concat(name(), '-', @id)", "a", "'lit'", "string(*[1])", "..", "text()",
+	// tags that use the bindings given to Unmarshal (an error without them)
+	"$s", "probe()", "u:up(name())", "concat($s, '-', $n)", "u:up()", "string($n + count(*))"}
 var boolTags = []string{"a", "@id", "true()", "false()", "count(*) > 1", "not(*)", "'x'", "0", "'0'", "''", "number('x')", "string(@n)", "' '", "0 div 0", "-0", "'false'", "0.0", "string(nosuch)"}
 var floatTags = []string{"1.5", "count(*) div 2", "number(@id)", "@n", "-0.25", "1 div 0"}
 var nodeTags = []string{"*", "a", "b", ".", "*[1]", "..", "a | b", "*/*", "nosuch", "@*", "text()", "ancestor-or-self::*"}
@@ -420,10 +451,17 @@ func genField(t *rapid.T, depth int, idx int) fdesc {
 		if ek == "int" || ek == "uint8" {
 			f.Tag = pick(t, "numNodeTag", []string{"*/@n", "@n", "nosuch", "a/@n"})
 		}
+		if rapid.IntRange(0, 5).Draw(t, "scalarForSlice") == 0 {
+			// a result of the wrong shape for a slice: an error, never an empty slice
+			f.Tag = pick(t, "scalarTag", []string{"count(*)", "'x'", "true()", "string(a)", "a = 1", "sum(*/@n)", "name()", "''", "0"})
+		}
 	case k == 8, k == 9:
 		f.T, f.Tag = genStruct(t, depth-1), pick(t, "structTag", []string{"*[1]", ".", "a[1]", "..", "*", "nosuch", "b[1]"})
 	default:
 		f.T, f.Tag = &tdesc{Kind: "slice", Elem: genStruct(t, depth-1)}, pick(t, "nodeTag", nodeTags)
+		if rapid.IntRange(0, 7).Draw(t, "scalarForStructSlice") == 0 {
+			f.Tag = pick(t, "scalarTag", []string{"count(*)", "'x'", "true()", "string(a)", "''"})
+		}
 		if rapid.Bool().Draw(t, "slicePtrElem") {
 			f.T.Elem = &tdesc{Kind: "ptr", Elem: f.T.Elem}
 		}
@@ -509,6 +547,32 @@ type unexportedEmbedded struct {
 	c19inner `xsel:"."`
 }
 
+type c19Cplx complex128
+
+type complexField struct {
+	C complex128 `xsel:"count(*)"`
+}
+
+type namedComplexPtrField struct {
+	C **c19Cplx `xsel:"1.5"`
+}
+
+type uintptrField struct {
+	U uintptr `xsel:"count(*)"`
+}
+
+type unsafePtrField struct {
+	P unsafe.Pointer `xsel:"count(*)"`
+}
+
+type funcField struct {
+	F func() `xsel:"."`
+}
+
+type chanField struct {
+	C chan int `xsel:"."`
+}
+
 type ifaceField struct {
 	Any any `xsel:"."`
 }
@@ -523,7 +587,8 @@ type arrayField struct {
 
 var c19BadKinds = []string{"nil", "non-pointer struct", "nil pointer", "pointer to nil pointer", "map", "array", "chan", "func", "2-D slice", "unexported tagged field", "interface field", "map field", "array field", "int", "string",
 	"pointer to nil slice pointer", "pointer to pointer to nil struct pointer", "pointer to nil pointer to slice of structs",
-	"unexported tagged struct field", "unexported tagged slice field", "unexported tagged pointer field", "embedded unexported struct with a tag"}
+	"unexported tagged struct field", "unexported tagged slice field", "unexported tagged pointer field", "embedded unexported struct with a tag",
+	"complex field", "slice of complex", "uintptr field", "unsafe pointer field", "func field", "chan field", "slice of maps", "named complex field behind a pointer"}
 
 type c19BadCase struct {
 	Events []xmodel.Event `json:"events"`
@@ -581,6 +646,22 @@ func checkC19Bad(c *c19BadCase) error {
 		target = &unexportedPtrField{}
 	case "embedded unexported struct with a tag":
 		target = &unexportedEmbedded{}
+	case "complex field":
+		target = &complexField{}
+	case "named complex field behind a pointer":
+		target = &namedComplexPtrField{}
+	case "slice of complex":
+		target = &[]complex64{}
+	case "uintptr field":
+		target = &uintptrField{}
+	case "unsafe pointer field":
+		target = &unsafePtrField{}
+	case "func field":
+		target = &funcField{}
+	case "chan field":
+		target = &chanField{}
+	case "slice of maps":
+		target = &[]map[string]string{}
 	case "interface field":
 		target = &ifaceField{}
 	case "map field":
@@ -613,7 +694,7 @@ func checkC19Bad(c *c19BadCase) error {
 	if gotErr == nil {
 		// a slice target with no node to convert never reaches the element
 		// type; only targets that were actually asked to hold something must fail
-		if c.Target == "2-D slice" && len(ns) == 0 {
+		if (c.Target == "2-D slice" || c.Target == "slice of complex" || c.Target == "slice of maps") && len(ns) == 0 {
 			return nil
 		}
 		return fmt.Errorf("Unmarshal into %s returned a nil error", c.Target)
@@ -645,6 +726,8 @@ func TestC19(t *testing.T) {
 		}
 		c.Prepopulate = rapid.IntRange(0, 3).Draw(t, "prepopulate") == 0
 		c.Prefill = rapid.IntRange(0, 2).Draw(t, "prefill") == 0
+		c.Bind = []int{0, 0, 1, 2, 4, 6, 6, 6}[rapid.IntRange(0, 7).Draw(t, "bind")]
+		st.Class(fmt.Sprintf("bindings=%d", c.Bind))
 		shape, interesting := shapeOf(c.Target)
 		st.Class("target=" + c.Target.Kind)
 		if interesting {
